@@ -134,6 +134,94 @@ pub fn cross_decode(ctx: &mut Ctx, case: &DictCase) {
             }
         }
     }
+    // `ord_to_term` computed by the model from the BYTES of the real file (footer → index region →
+    // block-address store → byte range → frame → value block skipped → front-coded keys)
+    {
+        let n = case.keys.len() as u64;
+        let mut probes: Vec<u64> = vec![0, 1, n / 2, n.saturating_sub(1), n, n + 7];
+        for l in layout.iter().skip(1).take(2) {
+            probes.push(l.0.saturating_sub(1));
+            probes.push(l.0);
+        }
+        let resp = ctx.model.ask(&format!("C15 o2t {} {} {}", case.vk, hex(&file), nats_field(&probes)));
+        let got: Vec<&str> = resp.split(',').collect();
+        if got.len() != probes.len() {
+            ctx.report.violation("model", "C15:file-ord-to-term-model", format!("model answered {} for {} probes", &resp[..resp.len().min(60)], probes.len()), cj.clone());
+        } else {
+            for (o, g) in probes.iter().zip(got.iter()) {
+                let want = if *o < n { format!("k{}", hex(&case.keys[*o as usize])) } else { "-".to_string() };
+                let zblock = layout.iter().rposition(|l| l.0 <= *o).map(|i| blocks[i] == "Z").unwrap_or(false);
+                if *g == "Z" && zblock {
+                    ctx.report.count("file-ord-to-term:zstd-block-skipped");
+                    continue;
+                }
+                ctx.report.count("file-ord-to-term:compared");
+                if *g != want {
+                    ctx.report.violation("model", "C15:file-ord-to-term-model", format!("ord_to_term({o}) computed by the Lean model from the bytes of a real {} file gives {g}, the dictionary holds {want}", case.vk), cj.clone());
+                    break;
+                }
+            }
+        }
+    }
+    // `get_block_with_key` of the real index (tantivy-fst + block-address store) against the model:
+    // separator routing of the Lean block model (= the FST under its stated contract), address
+    // read by the Lean store model from the bytes of the real file
+    if case.keys.len() <= 1500 {
+        let mut probes: Vec<Vec<u8>> = vec![vec![], vec![0xff, 0xff, 0xff, 0xff]];
+        for l in layout.iter().take(40).step_by(3) {
+            let first = case.keys[l.0 as usize].clone();
+            let last = case.keys[(l.0 + l.1 - 1) as usize].clone();
+            let mut after = last.clone();
+            after.push(0);
+            probes.push(first);
+            probes.push(last);
+            probes.push(after);
+        }
+        let real: Option<Vec<(String, String, String)>> = {
+            let fa = |a: Option<tantivy_sstable::BlockAddr>| a.map(|a| format!("{}:{}:{}", a.first_ordinal, a.byte_range.start, a.byte_range.end)).unwrap_or_else(|| "-".to_string());
+            let fh = |h: std::io::Result<tantivy_sstable::TermOrdHit>| match h {
+                Ok(tantivy_sstable::TermOrdHit::Exact(o)) => format!("e{o}"),
+                Ok(tantivy_sstable::TermOrdHit::Next(o)) => if o == u64::MAX { "nmax".to_string() } else { format!("n{o}") },
+                Err(_) => "err".to_string(),
+            };
+            match case.vk.as_str() {
+                "void" => Dictionary::<VoidSSTable>::from_bytes(OwnedBytes::new(file.clone())).ok().map(|d| probes.iter().map(|k| (fa(d.sstable_index.get_block_with_key(k)), fh(d.term_ord_or_next(k)), match d.get(k) { Ok(Some(())) => "v0".to_string(), Ok(None) => "-".to_string(), Err(_) => "err".to_string() })).collect()),
+                "u64" => Dictionary::<MonotonicU64SSTable>::from_bytes(OwnedBytes::new(file.clone())).ok().map(|d| probes.iter().map(|k| (fa(d.sstable_index.get_block_with_key(k)), fh(d.term_ord_or_next(k)), match d.get(k) { Ok(Some(v)) => format!("v{v}"), Ok(None) => "-".to_string(), Err(_) => "err".to_string() })).collect()),
+                _ => Dictionary::<RangeSSTable>::from_bytes(OwnedBytes::new(file.clone())).ok().map(|d| probes.iter().map(|k| (fa(d.sstable_index.get_block_with_key(k)), fh(d.term_ord_or_next(k)), match d.get(k) { Ok(Some(v)) => format!("v{}", v.start), Ok(None) => "-".to_string(), Err(_) => "err".to_string() })).collect()),
+            }
+        };
+        if let Some(real) = real {
+            let resp = ctx.model.ask(&format!("C15 kblk {} {} {} {} {}", case.vk, hex(&file), bl, keys_field(&case.keys), keys_field(&probes)));
+            ctx.report.count("file-block-for-key:compared");
+            let got: Vec<&str> = resp.split(';').collect();
+            if got.len() != real.len() {
+                ctx.report.violation("model", "C15:file-block-for-key-model", format!("model answered {} for {} probe keys", &resp[..resp.len().min(60)], real.len()), cj.clone());
+            } else {
+                for (g, (ra, rh, rg)) in got.iter().zip(real.iter()) {
+                    let parts3: Vec<&str> = g.split('/').collect();
+                    let (ga, gh, gg) = (parts3.first().copied().unwrap_or("?"), parts3.get(1).copied().unwrap_or("?"), parts3.get(2).copied().unwrap_or("?"));
+                    if ga != ra {
+                        ctx.report.violation("model", "C15:file-block-for-key-model", format!("get_block_with_key: real index {ra}, Lean model (separator routing + store decoded from the file bytes) {ga}"), cj.clone());
+                        break;
+                    }
+                    if gh == "Z" {
+                        ctx.report.count("file-term-ord:zstd-block-skipped");
+                        continue;
+                    }
+                    ctx.report.count("file-term-ord:compared");
+                    if gh != rh {
+                        ctx.report.violation("model", "C15:file-term-ord-model", format!("term_ord_or_next computed by the Lean model from the bytes of a real {} file gives {gh}, the real dictionary {rh}", case.vk), cj.clone());
+                        break;
+                    }
+                    ctx.report.count("file-get:compared");
+                    if gg != rg {
+                        ctx.report.violation("model", "C15:file-get-model", format!("get computed by the Lean model from the bytes of a real {} file gives {gg}, the real dictionary {rg}", case.vk), cj.clone());
+                        break;
+                    }
+                }
+            }
+        }
+    }
     // reverse direction (void values): blocks encoded by the model, read by the real Reader,
     // and byte-equal to what the real writer wrote
     if case.vk == "void" {
